@@ -25,7 +25,7 @@ type RsEnc struct {
 	Cs   uint32
 	Seed int64
 	InHs bool // the handshake is not finished: a Set Chunk Size sent now is handshake filler, not a message
-	nf   int // fresh chunk stream ids handed out so far
+	nf   int  // fresh chunk stream ids handed out so far
 }
 
 func NewRsEnc(seed int64) *RsEnc { return &RsEnc{Cs: 128, Seed: seed} }
